@@ -181,7 +181,7 @@ def main(tier):
     tasks = []
     git_secs = sections_for("git", K, producers.BODY_KINDS)
     small = sections_for("git", K, ["ctx", "minus", "nonl"])
-    du_secs = sections_for("diffu", ["modified"], producers.BODY_KINDS + ["emptyctx"])
+    du_secs = sections_for("diffu", ["modified"], producers.BODY_KINDS + ["emptyctx"]) + [("binary", "ctx")]
     for label, ov, k in configs:
         if tier == "quick":
             tasks.append((label, ov, "git", git_secs if k == 0 else small, 2))
